@@ -11,8 +11,8 @@ vars == <<mode, n>>
 TermsQuick == U1 \cup AtomsU0 \cup ImgWithLatePH \cup Sample(U2rSet(0), 12, SEED)
 TermsThorough == U1 \cup AtomsU0 \cup ImgWithLatePH \cup U2rSet(0)
 Cases(k) == IF TIER = "quick"
-            THEN {AsTerm(t) : t \in Part(TermsQuick, k, SEEDS)} \cup Part(EnvelopeQuickSet(0), k, SEEDS)
-            ELSE {AsTerm(t) : t \in Part(TermsThorough, k, SEEDS)} \cup Part(EnvelopeFullSet(0), k, SEEDS)
+            THEN {AsTerm(t) : t \in Part(TermsQuick, k, SEEDS)} \cup Part(EnvelopeQuickSet(0) \cup RichEnvelopeSet(0), k, SEEDS)
+            ELSE {AsTerm(t) : t \in Part(TermsThorough, k, SEEDS)} \cup Part(EnvelopeFullSet(0) \cup RichEnvelopeSet(0), k, SEEDS)
 
 Init == mode = "seed" /\ n \in 1..SEEDS
 Next == mode = "seed" /\ mode' = "case" /\ n' \in Cases(n)
